@@ -21,7 +21,13 @@ open Mesa.Signals
     by any sequence of operations, **whether they returned or raised**: definitions of pure functions (which may raise
     on their own: `fail`) that read only earlier Computables, assignments (also restoring old values), reads, handler
     (un)subscriptions and deaths; `OpOK`: a handler that reads Computables subscribes to Observables, a handler that
-    subscribes to a Computable is passive -/
+    subscribes to a Computable is passive.
+    **Not covered** (do not over-read the theorems about `Reachable` states): a function with an assignment (`write`
+    node) is no admissible definition (`DefineOK.pure`) — after such a definition, cyclic or not, none of the theorems
+    below about reachable states applies any more (only the cycle theorems, which hold in any state); a Computable is
+    never defined twice (`DefineOK.fresh`); a handler subscribed to a Computable reads no Computables (`OpOK.observe`).
+    All read theorems are partial-correctness statements: their hypothesis is that the read returned (`step fuel … =
+    some …`); that some fuel makes a read of a reachable state return is not proved (see design.d/C17.md) -/
 inductive Reachable (decls : Nat → List Decl) (progs : Nat → List Nat) : St → Prop
   | init : Reachable decls progs (init decls progs)
   | step {s s' : St} {op : Op} {fuel : Nat} {r : R} (h : Reachable decls progs s) (ok : OpOK s op)
